@@ -1,6 +1,8 @@
 import OmplModel.Proofs.GridComponents
 import OmplModel.Proofs.GridRun
 import OmplModel.Proofs.GridCoords
+import OmplModel.Proofs.DiscProps
+import OmplModel.Proofs.DiscReal
 /-!
 # C13 — grid discretizations track cells, neighbours, borders and components exactly
 
@@ -146,5 +148,117 @@ example : ((run cfg0 (ops0 ++ [.rm [1, 0]])).cells.map (fun c => (c.coord, c.nbr
     [([0, 0], 2, true, 9)] := by decide
 example : ((run cfg0 (ops0.take 3)).cells.map (fun c => (c.coord, c.nbrs, c.border))) =
     [([0, 0], 4, false), ([0, 1], 3, false), ([1, 0], 3, false)] := by decide
+
+/-! ## Discretization (the user of `GridB` in KPIECE1 / BKPIECE1 / LBKPIECE1)
+
+Model `OmplModel.Disc` (Model/Discretization.lean) over any `Num α`.  "Every history" = `drun P bf ops` for an
+arbitrary list of operations (`addMotion`, `selectMotion` with scripted draws, score change + `updateCell`,
+`removeMotion`, `countIteration`, `setBorderFraction`, `clear`); `validFrom`: a motion is added once (fresh `Motion*`)
+under a coordinate of `dim` entries.  `specRun` is the abstract list of (motion, coordinate) pairs added and not
+removed. -/
+section Discretization
+open OmplModel.Disc
+variable {α : Type} [Num α] [HasLog α]
+
+/-- the protocol assumption of C13 is met by its main user: every `Discretization` operation accesses `grid_` by at
+most one step of the C13 protocol alphabet, with a coordinate of `dim` entries, `createCell`+`add` only for an absent
+coordinate and `remove` only for a present cell -- after every history. -/
+theorem discretization_obeys_grid_protocol (P : Params α) (bf : α) (ops : List (DOp α)) (hv : validFrom P [] ops)
+    (op : DOp α) (hop : opValid P (specRun [] ops) op) :
+    GridAccess P (drun P bf ops) (dstep P (drun P bf ops) op) :=
+  dstep_access (drun_inv P bf ops hv) op hop
+
+/-- motion bookkeeping, after every history: the grid cells and the `CellData` table have the same coordinates
+(distinct); the cell at `x` holds exactly the motions added under `x` and not removed, in order of addition, and no
+cell is empty; every stored motion's coordinate has a cell; a stored motion is in the cell of its coordinate and in no
+other cell; `size_` counts the stored motions. -/
+theorem disc_motions_in_cells (P : Params α) (bf : α) (ops : List (DOp α)) (hv : validFrom P [] ops) :
+    let d := drun P bf ops
+    let live := specRun [] ops
+    d.grid.cells.map (·.coord) = keys d.cdata ∧ (keys d.cdata).Nodup ∧
+    (∀ e ∈ d.cdata, e.2.motions = motionsAt live e.1 ∧ e.2.motions ≠ []) ∧
+    (∀ p ∈ live, p.2 ∈ keys d.cdata) ∧
+    (∀ m x, (m, x) ∈ live → ∀ e ∈ d.cdata, (m ∈ e.2.motions ↔ e.1 = x)) ∧
+    d.size = live.length := by
+  intro d live
+  have h : DInv P d live := drun_inv P bf ops hv
+  exact ⟨h.sync, h.keys_nodup, h.mot, h.cov, fun m x hm e he => mem_cell_iff h hm he, h.size⟩
+
+/-- the GridB invariants of C13 hold throughout every `Discretization` history: well-formed cell list, counters and
+border flags (no bounds: the count is the number of present neighbours), each cell in exactly one queue, external iff
+border; and, if the ordering functor is a strict weak order on the importances that occur, both tops are best cells. -/
+theorem disc_grid_invariants (P : Params α) (bf : α) (ops : List (DOp α)) (hv : validFrom P [] ops) :
+    let d := drun P bf ops
+    let g := d.grid
+    WF P.dim g.cells ∧
+    (∀ c ∈ g.cells, c.nbrs = (neighbors P.dim g.cells c.coord).length ∧ (c.border = true ↔ c.nbrs < 2 * P.dim)) ∧
+    (qids g.external ++ qids g.internal).Perm (g.cells.map (·.id)) ∧ (g.cells.map (·.id)).Nodup ∧
+    (∀ c ∈ g.cells, (c.id ∈ qids g.external ↔ c.border = true) ∧ (c.id ∈ qids g.internal ↔ c.border = false)) ∧
+    (FunctorOK P → TopsBest (gcfg P d.cdata) g) := by
+  intro d g
+  have h : DInv P d (specRun [] ops) := drun_inv P bf ops hv
+  have hi := h.ginv
+  refine ⟨⟨hi.nodup, hi.len⟩, ?_, hi.queues_perm, hi.idnd, fun c hc => ⟨hi.ext_iff_border hc, hi.int_iff_interior hc⟩, ?_⟩
+  · intro c hc
+    refine ⟨?_, ?_⟩
+    · have := hi.count c hc
+      rw [cnt_eq_neighbors] at this
+      exact this
+    · have := hi.border c hc
+      rw [this]; simp; rfl
+  · intro hf
+    exact tops_best_of_inv (cmpOK hf _) hi (drun_ordered hf bf ops hv)
+
+/-- `selectMotion` on a non-empty discretization returns a motion that was added and not removed, with its cell --
+whatever the two random draws are (within `halfNormalInt`'s range contract). -/
+theorem disc_select_returns_stored_motion (P : Params α) (bf : α) (ops : List (DOp α)) (hv : validFrom P [] ops)
+    (hne : specRun [] ops ≠ []) (u : α) (pick : Nat → Nat) (hpick : ∀ n, 0 < n → pick n < n) :
+    ∃ m x, (select P (drun P bf ops) u pick).2 = some (m, x) ∧ (m, x) ∈ specRun [] ops :=
+  select_returns_live (drun_inv P bf ops hv) hne u pick hpick
+
+/-- F3 seen from `selectMotion` (dimension ≥ 1, at least one motion stored): the external queue is never empty, so
+`topExternal()` never runs on an empty queue; `topInternal()` runs on an EMPTY internal queue exactly in the branch
+"draw not below max(borderFraction, fracExternal)" while no interior cell exists, and the repaired fallback then
+answers the external top, a present border cell (the unrepaired code dereferenced `nullptr` there). -/
+theorem disc_select_empty_side (P : Params α) (bf : α) (ops : List (DOp α)) (hv : validFrom P [] ops)
+    (hne : specRun [] ops ≠ []) (hd : 0 < P.dim) (u : α) :
+    let d := drun P bf ops
+    d.grid.external.top ≠ none ∧
+    (wantsExternal d u = false → d.grid.internal.top = none →
+      topInternal d.grid = topExternal d.grid ∧ ∃ c ∈ d.grid.cells, c.border = true ∧ topInternal d.grid = some c.id) :=
+  select_empty_side (drun_inv P bf ops hv) hne hd u
+
+/-! non-vacuity.  A valid history and its abstract motion list, for every `α`; and the reason for `0 < P.dim` in
+`disc_select_empty_side`: in dimension 0 the limit is 0, the only possible cell is interior and the external queue
+IS empty (evaluated on the grid model). -/
+example (P : Params α) (hP : P.dim = 2) (a b : α) :
+    validFrom P [] [.add 0 [0, 0] a, .add 1 [0, 1] b, .add 2 [0, 0] a, .remove 0 [0, 0], .remove 1 [0, 1], .clear] := by
+  simp [validFrom, opValid, specStep, hP]
+example (a b : α) : specRun ([] : Live) [DOp.add 0 [0, 0] a, .add 1 [0, 1] b, .add 2 [0, 0] a, .remove 0 [0, 0]]
+    = [(1, [0, 1]), (2, [0, 0])] := by
+  simp [specRun, specStep]
+def cfgD0 : Cfg := { dim := 0, limit := 0, ltE := fun a b => decide (a > b), ltI := fun a b => decide (a > b), ev := fun c => c.data }
+example : (run cfgD0 [.new [] 7]).external.arr.size = 0 ∧ (run cfgD0 [.new [] 7]).cells.map (·.border) = [false] := by
+  decide
+
+end Discretization
+
+section DiscretizationReal
+open OmplModel.Disc
+attribute [-instance] OmplModel.Num.instOfNat
+
+/-- [EX] `computeImportance` over ℝ: a cell with positive score and coverage and at least one selection has a
+positive importance, at most `score / coverage`; and the score a new cell starts with is positive
+(`iteration_ ≥ 1`, `dist ≥ 0`).  Unverified: IEEE rounding (the quotient can underflow to 0 in `double`). -/
+theorem disc_importance_pos (cd : CellData ℝ) (nbrs : Nat) (hs : 0 < cd.score) (hc : 0 < cd.coverage)
+    (hsel : 1 ≤ cd.selections) (iteration : Nat) (dist : ℝ) (hi : 1 ≤ iteration) (hd : 0 ≤ dist) :
+    (0 < importance cd nbrs ∧ importance cd nbrs ≤ cd.score / cd.coverage) ∧
+    0 < ((Num.ofNat 1 : ℝ) + HasLog.log (Num.ofNat iteration : ℝ)) / ((Num.ofNat 1 : ℝ) + dist) :=
+  ⟨importance_pos cd nbrs hs hc hsel, initial_score_pos iteration dist hi hd⟩
+
+example : (0 : ℝ) < importance ({ motions := [0], coverage := 2, selections := 3, score := 1, iteration := 1 } : CellData ℝ) 4 :=
+  (importance_pos _ 4 (by norm_num) (by norm_num) (by norm_num)).1
+
+end DiscretizationReal
 
 end OmplModel.Props.C13
